@@ -40,6 +40,19 @@ pub fn verif_extend_prefix(out: &mut Vec<u8>, x: &Cow, i: usize)
     requires i <= x.bytes().len(),
     ensures final(out)@ == old(out)@ + x.bytes().take(i as int)
 { unimplemented!() }
+// the same idiom as a method, so that the renaming `.extend(X[..i].as_bytes())` -> `.verif_extend_prefix_of(&X, i)` applies to
+// whatever vector the text extends (a generic renaming: a rewritten statement around it is then decided, not exit 2)
+pub trait ExtendPrefix {
+    spec fn me(&self) -> Seq<u8>;
+    fn verif_extend_prefix_of(&mut self, x: &Cow, i: usize)
+        requires i <= x.bytes().len(),      // (`X[..i]` panics beyond the end)
+        ensures final(self).me() == old(self).me() + x.bytes().take(i as int);
+}
+impl ExtendPrefix for Vec<u8> {
+    open spec fn me(&self) -> Seq<u8> { self@ }
+    #[verifier::external_body]
+    fn verif_extend_prefix_of(&mut self, x: &Cow, i: usize) { unimplemented!() }
+}
 
 // ASSUMED (valid_utf8 is uninterpreted): escaping replaces ASCII bytes by ASCII sequences, which keeps UTF-8 text valid
 pub broadcast axiom fn axiom_esc_keeps_utf8(v: Seq<u8>)
@@ -85,7 +98,7 @@ pub proof fn lemma_esc_plain(s: Seq<u8>, n: int)
 //@ sub "fn needs_escape(c: u8) -> bool {" => "fn needs_escape(c: u8) -> (r: bool) ensures r == special(c) {"
 //@ sub "fn xdigit(c: u8) -> u8 {" => "fn xdigit(c: u8) -> (r: u8) requires c < 16 ensures r == hexdig(c as int) {"
 //@ sub "for (i, &c) in lit.as_bytes().iter().enumerate()" => "for (i, c) in verif_enumerate_bytes(lit.as_bytes()).into_iter()"
-//@ sub "output.as_mut().unwrap().extend(lit[..i].as_bytes());" => "verif_extend_prefix(output.as_mut().unwrap(), &lit, i);"
+//@ sub ".extend(lit[..i].as_bytes())" => ".verif_extend_prefix_of(&lit, i)" count=*
 //@ sub "let mut output = None;" => "let mut output: Option<Vec<u8>> = None;"
 //@ ret r
 //@ insert before "let mut output: Option<Vec<u8>> = None;"
@@ -145,7 +158,7 @@ pub proof fn lemma_dn_esc_plain(v: Seq<u8>, n: nat)
 //@ sub "fn escape_trailing(c: u8) -> bool {" => "fn escape_trailing(c: u8) -> (r: bool) ensures r == (c == 0x20) {"
 //@ sub "fn xdigit(c: u8) -> u8 {" => "fn xdigit(c: u8) -> (r: u8) requires c < 16 ensures r == hexdig(c as int) {"
 //@ sub "for (i, &c) in val.as_bytes().iter().enumerate()" => "for (i, c) in verif_enumerate_bytes(val.as_bytes()).into_iter()"
-//@ sub "output.as_mut().unwrap().extend(val[..i].as_bytes());" => "verif_extend_prefix(output.as_mut().unwrap(), &val, i);"
+//@ sub ".extend(val[..i].as_bytes())" => ".verif_extend_prefix_of(&val, i)" count=*
 //@ sub "let mut output = None;" => "let mut output: Option<Vec<u8>> = None;"
 //@ ret r
 //@ insert before "let mut output: Option<Vec<u8>> = None;"
@@ -219,7 +232,7 @@ pub proof fn lemma_wf_unf(b: Seq<u8>, st: Unescaper, acc: Seq<u8>)
 //@lift name=ldap_unescape file=src/util.rs fn=ldap_unescape
 //@ sub "fn ldap_unescape<'a, S: Into<Cow<'a, str>>>(val: S) -> Result<Cow<'a, str>>" => "fn ldap_unescape<'a>(val: Cow<'a>) -> Result<Cow<'a>>"
 //@ sub "for (i, &c) in val.as_bytes().iter().enumerate()" => "for (i, c) in verif_enumerate_bytes(val.as_bytes()).into_iter()"
-//@ sub "output.as_mut().unwrap().extend(val[..i].as_bytes());" => "verif_extend_prefix(output.as_mut().unwrap(), &val, i);"
+//@ sub ".extend(val[..i].as_bytes())" => ".verif_extend_prefix_of(&val, i)" count=*
 //@ sub "let mut output = None;" => "let mut output: Option<Vec<u8>> = None;"
 //@ sub ".map_err(|_| LdapError::DecodingUTF8)?" => ".map_err(|_e| LdapError::DecodingUTF8)?"
 //@ ret r
